@@ -931,6 +931,63 @@ class LcGen(GovGen):
         probes()
         self.tags.add(f"logout-of-activating-chain:{last}")
 
+    def systematic(self):
+        """a random word over the whole alphabet of governance operations on ONE service and its appchain — freeze / activate /
+        logout of the service or of the chain, each approved at once, rejected at once or left open, and the conclusion
+        (approve / reject / withdraw) of the oldest open proposal — instead of hand-written scenarios; everything is read
+        back after every step, and the service is probed as source and destination at the end, before and after a restart"""
+        r = self.r
+        c = r.choice(["c1", "c2", "c4"])
+        mine = [x for x in SVC if x.startswith(c + ":")]
+        svc = r.choice(mine)
+        open_props = []
+        word = []
+        for _ in range(r.randint(3, 6)):
+            k = r.random()
+            if k < 0.75 or not open_props:
+                target = r.choice(["S", "S", "C"])
+                op = r.choice(["Freeze", "Activate", "Logout"])
+                outcome = r.choice(["A", "A", "R", "O"])
+                if target == "S":
+                    who = f"ca{c[1]}" if op == "Logout" else r.choice(ADMINS)
+                    self.submit(who, f"service {op}Service s:{svc} s:reason", "service-" + op.lower(), "service", svc)
+                else:
+                    who = f"ca{c[1]}" if op == "Logout" else r.choice(ADMINS)
+                    self.submit(who, f"appchain {op}Appchain s:{c} s:reason", "appchain-" + op.lower(), "appchain", c)
+                ref, kind, mod, obj = self.props[-1]
+                if outcome == "O":
+                    open_props.append((ref, mod, obj))
+                else:
+                    self.vote_all(ref, mod, obj, "approve" if outcome == "A" else "reject")
+                word.append(target + op[0] + outcome)
+            else:
+                ref, mod, obj = open_props.pop(0)
+                how = r.choice(["approve", "reject", "reject", "withdraw"])
+                if how == "withdraw":
+                    creator = ref[1:].rsplit("-", 1)[0]
+                    self.ops.append(f"block bvm {creator} gov WithdrawProposal s:{ref} s:reason")
+                    self.ops.append(f"q prop {ref}")
+                else:
+                    self.vote_all(ref, mod, obj, how)
+                word.append("X" + how[0])
+            for x in mine:
+                self.observe(x)
+        self.tags.add("systematic")
+        self.tags.add("word-length:%d" % len(word))
+        other = "c2:s1" if c != "c2" else "c4:s1"
+        for rnd in range(2):
+            for f, t in ((svc, other), (other, svc)):
+                i = self.idx.get((f, t), 1)
+                self.observe(f)
+                self.observe(t)
+                self.ops.append(f"block ibtp ca{f[1]} {f} {t} {i} req 0 - ok")
+                self.observe(f)
+                self.observe(t)
+                self.idx[(f, t)] = i + 1
+            if rnd == 0:
+                self.ops.append("restart")
+                self.tags.add("restart")
+
     def late_vote(self):
         if not self.pending:
             return self.govern()
@@ -950,6 +1007,9 @@ def gen_c16(rng, n, tier):
         for s in SVC:
             g.observe(s)
         k0 = r.random()
+        if r.random() < 0.3:
+            g.systematic()
+            k0 = 1.0
         if k0 < 0.25:
             for _ in range(r.randint(0, 2)):
                 g.govern()
